@@ -2930,10 +2930,10 @@ CALSCALE:GREGORIAN\n";
 		if (UNLIKELY(i.t == NULL)) {
 			break;
 		}
-		/* use specifics in T to declare defaults */
-		if (i.t->max_simul) {
-			fdprintf("X-ECHS-MAX-SIMUL:%d\n", i.t->max_simul);
-		}
+		/* use specifics in T to declare defaults
+		 * only the owner is common to all tasks that follow, every
+		 * other field (X-ECHS-MAX-SIMUL in particular) is written
+		 * per task and must not become the default of its siblings */
 		with (nummapstr_t o = i.t->owner) {
 			const char *p;
 			uintptr_t n;
